@@ -8,7 +8,10 @@ from harness.core import Failure, lib_exception_failure
 
 
 class Stack:
-    def __init__(self, specs, frags=None, connect_client=True, yield_drains=False, early=()):
+    def __init__(self, specs, frags=None, connect_client=True, yield_drains=False, early=(), snoopers=()):
+        """snoopers: [(driver index, device name, BLOB policy | None)] - drivers that follow another device through
+        Driver.snoop_device() (registered with the router BEFORE any network client connects, as at server start-up) and,
+        with a policy, enable BLOBs for it on their snooping client."""
         from indi.client.client import Client
 
         frags = frags or {}
@@ -16,6 +19,18 @@ class Stack:
         self.loop = self.net.loop
         self.dep = drivers.Deployment(specs, self.net.router, early=early)
         self.client = None
+        self.snoops = []
+        for di, devname, policy in snoopers:
+            def go(di=di, devname=devname, policy=policy):
+                from indi import message as _m
+
+                c = self.dep.drivers[di].snoop_device(devname)
+                if policy is not None:
+                    c.send_message(_m.EnableBLOB(device=devname, value=policy))
+                return c
+
+            self.snoops.append(self.in_loop(go, settle=False))
+            self.loop.drain()
         if connect_client:
             self.control = net.FakeTCP(self.net, frags.get("c2s"), frags.get("s2c"))
             self.blob = net.FakeTCP(self.net, frags.get("b2s"), frags.get("s2b"))
